@@ -326,13 +326,13 @@ class BaseCommand(FlockMixin, ABC):
                 )
             )
 
-        if self.config.hooks:
-            self.run_hook(HookVariant.PRE)
-
-        await self._db_insert_run_meta()
-
         exit_code = 0
         try:
+            if self.config.hooks:
+                self.run_hook(HookVariant.PRE)
+
+            await self._db_insert_run_meta()
+
             exit_code = await self.run()
         # Under asyncio.run() Ctrl-C cancels this task; the KeyboardInterrupt is only raised once the task is done
         except (KeyboardInterrupt, asyncio.CancelledError):
